@@ -24,6 +24,11 @@ NUMKEY = {'a': decimal.Decimal('1.0'), 'b': decimal.Decimal('1.00'), 'c': decima
 
 def fields_spec(universe, wildcard=False, onlylast=False):
     aggs = NUM_AGGS if universe == 'num' else TXT_AGGS
+    if onlylast == 'empty':
+        return collections.OrderedDict()        # join used as a pure key filter / semi-join
+    if isinstance(onlylast, str) and onlylast.startswith('wild-'):
+        # every source field not mentioned explicitly gets the aggregate through the catch-all
+        return collections.OrderedDict([('k', {'aggregate': 'last'}), ('*', {'aggregate': onlylast[5:]})])
     if onlylast:
         # nothing but 'last' and the default 'any' (no aggregate that needs a running state)
         return collections.OrderedDict([('v_last', {'name': 'v', 'aggregate': 'last'}), ('v_any', {'name': 'v'}),
@@ -99,7 +104,15 @@ def aggregate(agg, vals, nrows):
 
 
 def norm_value(agg, v):
-    """Bring an emitted value to the model's comparison form."""
+    """Bring an emitted value to the model's comparison form (anything of an unexpected shape is kept as it is and will
+    simply not compare equal)."""
+    try:
+        return _norm_value(agg, v)
+    except Exception:
+        return ('unexpected-shape', repr(v))
+
+
+def _norm_value(agg, v):
     if v is None:
         return None
     if agg == 'set':
@@ -197,7 +210,11 @@ def check(case):
     viol = []
     names = out.names()
     dedup = case.get('dedup', False)
-    if case.get('wild'):
+    if isinstance(case.get('onlylast'), str) and case['onlylast'].startswith('wild-'):
+        agg = case['onlylast'][5:]
+        eff = collections.OrderedDict([('k', {'name': 'k', 'aggregate': 'last'}), ('v', {'name': 'v', 'aggregate': agg}),
+                                       ('o', {'name': 'o', 'aggregate': agg})])
+    elif case.get('wild'):
         # '*' applies to the source fields not specifically mentioned (v is mentioned by v_sum)
         eff = collections.OrderedDict([('v_sum', {'name': 'v', 'aggregate': 'sum'}), ('k', {'name': 'k', 'aggregate': 'last'}),
                                        ('o', {'name': 'o', 'aggregate': 'last'})])
@@ -298,6 +315,13 @@ def cases(tier):
                     out.append({'u': u, 'src': s, 'tgt': t, 'mode': mode, 'shape': 'list', 'source_delete': False})
                     out.append({'u': u, 'src': s, 'tgt': t, 'mode': mode, 'shape': 'list', 'spill': True})
                 out.append({'u': u, 'src': s, 'tgt': t, 'mode': 'half-outer', 'shape': 'list', 'wild': True})
+                for mode in ('inner', 'half-outer', 'full-outer'):
+                    out.append({'u': u, 'src': s, 'tgt': t, 'mode': mode, 'shape': 'list', 'onlylast': 'empty'})
+                    if u == 'num':
+                        out.append({'u': u, 'src': s, 'tgt': t, 'mode': mode, 'shape': 'rownum', 'onlylast': 'empty'})
+                if u == 'num' and len(t) <= 1:
+                    for agg in ('avg', 'median', 'set', 'array', 'counters', 'max'):
+                        out.append({'u': u, 'src': s, 'tgt': t, 'mode': 'half-outer', 'shape': 'list', 'onlylast': 'wild-' + agg})
                 for mode in ('half-outer', 'full-outer'):
                     out.append({'u': u, 'src': s, 'tgt': t, 'mode': mode, 'shape': 'list', 'onlylast': True})
                     if u == 'num':
@@ -312,6 +336,9 @@ def cases(tier):
                 out.append({'u': u, 'src': s, 'tgt': [], 'shape': shape, 'dedup': True})
                 out.append({'u': u, 'src': s, 'tgt': [], 'shape': shape, 'dedup': True, 'spill': True})
             out.append({'u': u, 'src': s, 'tgt': [], 'shape': 'list', 'dedup': True, 'onlylast': True})
+            if u == 'num':
+                for agg in ('avg', 'set', 'counters'):
+                    out.append({'u': u, 'src': s, 'tgt': [], 'shape': 'list', 'dedup': True, 'onlylast': 'wild-' + agg})
             if u == 'num':
                 out.append({'u': u, 'src': s, 'tgt': [], 'shape': 'list', 'dedup': True, 'numkey': True})
         if tier == 'thorough':
